@@ -62,6 +62,24 @@ def only_empty_ranges(spec):
     return False
 
 
+def edit_inside_character(spec):
+    """Does some edit of the history start or end INSIDE a multi-byte UTF-8 character of the text it
+    is applied to (on a continuation byte)?"""
+    f = spec.split(" ")
+    if len(f) != 5:
+        return False
+    text = b"" if f[2] == "-" else bytes.fromhex(f[2])
+    for st in f[4].split("|"):
+        if st.count(",") != 3:
+            continue
+        s_, oe = int(st.split(",")[0]), int(st.split(",")[1])
+        for x in (s_, oe):
+            if 0 < x < len(text) and (text[x] & 0xC0) == 0x80:
+                return True
+        text = apply_edit(text, st)
+    return False
+
+
 def splits_character(spec):
     """Does some included-range boundary of the history fall INSIDE a UTF-8 multi-byte sequence
     of the text it is applied to?"""
@@ -256,10 +274,12 @@ def run(ctx):
     evals = 0
     distinct = set()
     samples = []
-    tot = {k: 0 for k in ("gate", "match", "undet", "ext", "bd", "index_skipped", "cert_ok", "cert_stuck", "cert_glr", "cert_skipped", "refusals", "reused_inner", "reused_leaf", "reused_bytes", "lexed", "nodes", "clean")}
+    tot = {k: 0 for k in ("gate", "match", "undet", "ext", "bd", "index_skipped", "cert_ok", "cert_stuck", "cert_glr", "cert_skipped", "relex_checked", "relex_equal", "refusals", "reused_inner", "reused_leaf", "reused_bytes", "lexed", "nodes", "clean")}
     by_lang = {}
     kinds = {"chunked": 0, "ranges": 0, "exhaustive_single_char": 0, "multi_step": 0}
     corr_bad = judge_bad = 0
+    unsorted_diffs = 0
+    relex_unknown = 0
     lr_doc = {"ok": 0, "stuck": 0, "glr_ok": 0, "glr_stuck": 0, "skipped": 0, "MISMATCH": 0}
     lr_by_lang = {}
     shrunk = 0
@@ -278,6 +298,7 @@ def run(ctx):
             ll["doc_" + kv["lr_doc"].replace("glr_ok", "glr").replace("glr_stuck", "stuck")] += 1
         for k in ("cert_ok", "cert_stuck", "cert_glr"):
             ll[k] += int(kv.get(k, "0") or 0)
+        unsorted_diffs += kv.get("diffs_sorted", "1") == "0"
         bl = by_lang.setdefault(lang, {"cases": 0, "clean": 0, "reused_inner": 0})
         bl["cases"] += 1
         bl["clean"] += int(kv.get("clean", "0") or 0)
@@ -310,6 +331,8 @@ def run(ctx):
                   # … or a range difference starts at/after the end of the OLD tree's last included range
                   "diff_beyond_old_end": kv.get("diff_beyond_old_end") == "1",
                   # … or the parse runs with included ranges and the edit joins/splits lines
+                  # … or some edit of the history starts/ends inside a multi-byte character
+                  "edit_inside_character": edit_inside_character(spec),
                   "ranges_in_play": last_step_facts(spec)[0],
                   "edit_changes_line_breaks": last_step_facts(spec)[1]}
             is_known = any(k.get("status") == "known" and match_fp(k.get("match", {}), fp) for k in ctx.known)
@@ -320,6 +343,17 @@ def run(ctx):
                 payload["spec"] = small
                 payload["shrink_trials"] = trials
             ctx.violation("judge", "incremental parse differs from from-scratch parse: " + kv["judge"], payload, fingerprint=fp)
+        if kv.get("relex_checked", "0") != kv.get("relex_equal", "0"):
+            fpr = {"lang": lang, "clause": "LexLocal: an unmarked old token is lexed differently from scratch",
+                   "ranges_changed": int(kv.get("rangediffs", "0") or 0) > 0, "column_dependent_candidate": kv.get("coldep") == "1",
+                   "empty_included_range": has_empty_range(spec), "only_empty_ranges": only_empty_ranges(spec),
+                   "range_splits_character": splits_character(spec), "diff_beyond_old_end": kv.get("diff_beyond_old_end") == "1",
+                   "edit_inside_character": edit_inside_character(spec),
+                   "ranges_in_play": last_step_facts(spec)[0], "edit_changes_line_breaks": last_step_facts(spec)[1]}
+            if not any(k.get("status") == "known" and match_fp(k.get("match", {}), fpr) for k in ctx.known):
+                relex_unknown += 1
+            ctx.violation("judge", "hypothesis LexLocal fails on the real lexer: " + kv.get("relex_note", "").replace("_", " "),
+                          {"case": cid, "spec": spec, "result": kv}, fingerprint=fpr)
         if kv.get("corr", "ok") != "ok":
             corr_bad += 1
             ctx.violation("corr", "reuse gate model and the real parser's log disagree: " + kv["corr"],
@@ -327,6 +361,10 @@ def run(ctx):
                            "correspondence": "TsVerif.C01.reuseGate/stepIter vs lib/src/parser.c:ts_parser__reuse_node (log replay)"},
                           fingerprint={"lang": lang, "corr": "diff"}, found_input=False)
     ctx.oblige("corr:reuseGate=ts_parser__reuse_node(log replay)", corr_bad == 0, "%d cases disagree" % corr_bad)
+    # hypotheses of the theorems, evaluated on the real data of this run
+    ctx.oblige("hyp:RangesSorted(logged included-range differences)", unsorted_diffs == 0, "%d cases with unsorted differences" % unsorted_diffs)
+    ctx.oblige("hyp:LexLocal(unmarked old tokens re-lex to themselves from scratch, same parse state)",
+               relex_unknown == 0, "%d of %d tokens differ, %d cases outside the known findings" % (tot["relex_checked"] - tot["relex_equal"], tot["relex_checked"], relex_unknown))
     if not ctx.replay:
         # generator quality gate: the run must exercise reuse and error-free comparisons
         ctx.oblige("run:coverage-floor", evals >= 1000 and tot["clean"] * 5 >= evals and tot["reused_inner"] >= evals // 2,
@@ -344,6 +382,8 @@ def run(ctx):
         "correspondence": {"compared": tot["gate"], "equal": tot["match"], "undetermined_state_after_breakdown": tot["undet"],
                            "breakdown_lookahead_decisions_compared": tot["bd"],
                            "external_scanner_state_comparisons_recomputed": tot["ext"],
+                           "hypotheses_on_real_data": {"LexLocal_tokens_checked": tot["relex_checked"], "LexLocal_tokens_equal": tot["relex_equal"],
+                                                       "RangesSorted_cases_violating": unsorted_diffs},
                            "explained_only_by_difference_index_skipping": tot["index_skipped"],
                            "lr_machine_on_real_tables": {
                                "whole_error_free_documents": lr_doc,
